@@ -70,7 +70,8 @@ type RegOp struct {
 	Ctrl     int                 `json:"ctrl,omitempty"`     // bit mask of implemented actions
 	WithUses bool                `json:"withUses,omitempty"` // controller has Uses()
 	Uses     map[string][]string `json:"uses,omitempty"`     // action -> middleware ids
-	Kind     string              `json:"kind,omitempty"`     // "" | nonptr | nonstruct
+	Kind     string              `json:"kind,omitempty"`     // "" | nonptr | nonstruct | ptrptr
+	Again    string              `json:"again,omitempty"`    // register the same controller value a second time under this base path
 }
 
 // Action is one step of a handler script.
